@@ -1,6 +1,8 @@
 /-
   C06 — Building then loading a boot information preserves exactly the supplied tags.
 -/
+import Mb2.Props.FnsBoxed
+import Mb2.Props.FnsCast
 import Mb2.Props.Builders
 import Mb2.Build
 import Mb2.Spec
